@@ -26,13 +26,13 @@ RULE = (
     "node-level constraint, or >= 2 routes); distinct = case hash."
 )
 ASSUMPTIONS = ["additional starts/ends are not combined with MinFlowDecomp / MinFlowDecompCycles (they use a different, fill-in based semantics)"]
-BUDGET = {"quick": {"examples": 900, "deadline_s": 110}, "thorough": {"examples": 14000, "deadline_s": 900}}
+BUDGET = {"quick": {"examples": 1400, "deadline_s": 110}, "thorough": {"examples": 14000, "deadline_s": 900}}
 
 
 @st.composite
 def strategy_(draw, tier):
     big = tier == "thorough"
-    if draw(st.integers(0, 2)) == 0:
+    if draw(st.integers(0, 1)) == 0:
         # focus class: DAG models whose node mode has to carry node LENGTHS into the expansion (length-based constraint coverage)
         case = draw(gen.model_cases(classes=["kPathCover", "MinPathCover", "MinPathCover", "kFlowDecomp", "MinFlowDecomp", "kLeastAbsErrors", "kMinPathError"],
                                     max_nodes=6 if big else 5, p_node=1, p_opts=0, p_constr=1, p_ignore=6, p_se=6, k_slack=1, p_len=1, p_wild=2))
